@@ -73,6 +73,9 @@ def stable(v):
     return repr(v)
   if isinstance(v, str):
     return repr(scrub(v))
+  if isinstance(v, int) and not isinstance(v, bool) and \
+      v.bit_length() > 10000:
+    return '<int of %d bits>' % v.bit_length()   # beyond repr's digit limit
   if isinstance(v, (bytes, int, float, bool, type(None))):
     return repr(v)
   if isinstance(v, (list, tuple)):
